@@ -86,7 +86,7 @@ struct ScriptExecutionEnvironment {
     const BaseSignatureChecker& checker;
     SigVersion sigversion;
     ScriptError* serror;
-    std::map<std::vector<unsigned char>,std::vector<unsigned char>> pretend_valid_map;
+    std::set<std::pair<std::vector<unsigned char>,std::vector<unsigned char>>> pretend_valid_map; // (signature, pubkey) pairs
     std::set<std::vector<unsigned char>> pretend_valid_pubkeys;
     ScriptExecutionEnvironment(std::vector<std::vector<unsigned char> >& stack_in, const CScript& script_in, unsigned int flags_in, const BaseSignatureChecker& checker_in);
 
